@@ -1,9 +1,37 @@
+import Driver.C01
+import Driver.C02
+import Driver.C03
+import Driver.C04
+import Driver.C05
+import Driver.C06
 import Driver.C07
+import Driver.C08
+import Driver.C09
+import Driver.C10
+import Driver.C11
+import Driver.C12
+import Driver.C13
+import Driver.C14
+import Driver.C15
+import Driver.C16
+import Driver.C17
+import Driver.C18
+import Driver.C19
+import Driver.C20
 open Driver
+
+def handlers : List (String → IO.FS.Stream → IO.FS.Stream → Option (IO Unit)) :=
+  [C01.dispatch, C02.dispatch, C03.dispatch, C04.dispatch, C05.dispatch, C06.dispatch, C07.dispatch, C08.dispatch, C09.dispatch, C10.dispatch, C11.dispatch, C12.dispatch, C13.dispatch, C14.dispatch, C15.dispatch, C16.dispatch, C17.dispatch, C18.dispatch, C19.dispatch, C20.dispatch]
 
 def main (args : List String) : IO UInt32 := do
   let stdin ← IO.getStdin
   let stdout ← IO.getStdout
   match args with
-  | ["c07"] => loop stdin stdout C07.step []; return 0
-  | _ => IO.eprintln "usage: elvis_model <property>"; return 2
+  | [sub] =>
+    for h in handlers do
+      if let some act := h sub stdin stdout then
+        act
+        return 0
+    IO.eprintln s!"elvis_model: unknown sub-command {sub}"
+    return 2
+  | _ => IO.eprintln "usage: elvis_model <sub-command>"; return 2
